@@ -24,6 +24,14 @@ def state_case(rnd, removal=None, max_calls=10, family=None, malformed=0.0, isol
         o = rnd.choice([h for h in hist if h[0] == 'add'])
         hist.append(('add', 0, o[3], o[2], (o[4] or 0) + rnd.randint(0, 2), rnd.choice([None, (o[4] or 0) + 3])))
         classes.append('reciprocal')
+    if rnd.random() < 0.05:
+        # LONG timeline: one pair with 18..45 separate runs of one to three instants (plus what the history had)
+        k = rnd.randint(18, 45)
+        a, b = rnd.choice([(1, 2), (2, 1), (2, 3)])
+        t0 = rnd.randint(0, 3)
+        long_tl = [('add', 0, a, b, t0 + 6 * i, rnd.choice([None, t0 + 6 * i + 2, t0 + 6 * i + 3])) for i in range(k)]
+        hist = [o for o in hist if not (o[0] == 'add' and {o[2], o[3]} == {a, b})][:3] + long_tl
+        classes.append('many_runs')
     pre = []
     if isolated and rnd.random() < 0.4:
         pre.append(('addnode', 0, 7, rnd.choice([0, 5])))
